@@ -1,0 +1,17 @@
+//go:build verif
+
+package packet
+
+// VerifReceive, when set, is called at the top of (*Writer).receive; the function it returns runs
+// when receive returns. Verification harnesses use it to hold the goroutines that Reader.Close
+// spawns and to deliver each drop notification as an explicit step.
+var VerifReceive func(w *Writer, r *Reader, pck *Packet) func()
+
+func verifReceive(w *Writer, r *Reader, pck *Packet) func() {
+	if h := VerifReceive; h != nil {
+		if done := h(w, r, pck); done != nil {
+			return done
+		}
+	}
+	return func() {}
+}
